@@ -113,6 +113,14 @@ func NewTimeBucketInfo(tf utils.Timeframe, path, description string, year int16,
 	return f
 }
 
+// Validate reports an error if the header of a year file cannot hold this schema.
+func (f *TimeBucketInfo) Validate() error {
+	if len(f.elementTypes) > maxNumElements {
+		return fmt.Errorf("too many columns: %d (a bucket holds at most %d)", len(f.elementTypes), maxNumElements)
+	}
+	return nil
+}
+
 func CreateShapesForTimeBucketInfo(dsv []DataShape) (elementTypes []EnumElementType, elementNames []string) {
 	/*
 		Takes a datashape array and returns elementTypes and elementNames
